@@ -36,8 +36,8 @@ func (e *Exec) now() *Term {
 	if e.clock != nil {
 		lo = e.clock
 	}
-	e.Assume(c.SLE(lo, t))
-	e.Assume(c.SLT(t, c.BVConst(64, 1<<61)))
+	e.AssumeBenign(c.SLE(lo, t))
+	e.AssumeBenign(c.SLT(t, c.BVConst(64, 1<<61)))
 	e.clock = t
 	return t
 }
